@@ -8,4 +8,5 @@ CONSTANTS
   Lifetime = TRUE
   Post = TRUE
   Syncs = {TRUE, FALSE}
+  SrcKinds = {"coop", "silent"}
 CHECK_DEADLOCK FALSE
